@@ -55,12 +55,12 @@ Theorem C07_time_text : forall t, valid_time t ->
 Proof. exact time_text_parses. Qed.
 Print Assumptions C07_time_text.
 
-(* ... and, for a sql2py that returns it (flag computed from the translated code; false once `dt.datetime.time()` is repaired),
-   a new session reads the value held after flush, for every precision *)
-Theorem C07_time_reload_full_if_fixed : forall p t,
-  time_reloads_as_str = false -> 0 <= p <= 6 -> valid_time t -> reload_time p t = RVal (validate_time p t).
-Proof. exact time_reload_full_if_fixed. Qed.
-Print Assumptions C07_time_reload_full_if_fixed.
+(* ... and a new session reads the value held after flush, for every precision.  (The proof computes `time_reloads_as_str = false`
+   from the regenerated translation of SQLiteTimeConverter.sql2py: the `datetime.strptime` / `dt.datetime.time()` defect was
+   repaired in /repo commit c022f0e; reverting it breaks this proof.) *)
+Theorem C07_time_reload : forall p t, 0 <= p <= 6 -> valid_time t -> reload_time p t = RVal (validate_time p t).
+Proof. exact time_reload. Qed.
+Print Assumptions C07_time_reload.
 
 (* Decimal: what a new session reads is the value quantized to the declared scale (half even); storing is idempotent;
    values that fit the scale reload numerically equal *)
